@@ -323,8 +323,9 @@ func normJournal(j []memsql.Entry, plain bool) []jline {
 	ids := map[int]int{}
 	var out []jline
 	for _, e := range j {
-		if e.Kind == "CONNECT" || e.Kind == "CLOSE" || (plain && strings.Contains(e.Upper(), "UNDO_LOG")) {
-			continue // (undo_log: the asynchronous phase-two worker of an earlier global transaction)
+		if e.Kind == "CONNECT" || e.Kind == "CLOSE" || (plain && strings.Contains(e.Upper(), "UNDO_LOG")) || strings.Contains(e.Upper(), "INFORMATION_SCHEMA") {
+			continue // (undo_log: the asynchronous phase-two worker of an earlier global transaction;
+			// INFORMATION_SCHEMA: the table-metadata refresh ticker, which re-reads every cached table once a minute)
 		}
 		if _, ok := ids[e.Conn]; !ok {
 			ids[e.Conn] = len(ids) + 1
